@@ -80,21 +80,57 @@ def run(ctx: Ctx) -> None:
     lru_rule(ctx)
     plru_rule(ctx)
 
-    r = ctx.rule("R10.perset", "every cache set owns its own policy object")
+    perset_rule(ctx, "R10.perset")
+
+
+def perset_rule(ctx: Ctx, rid: str) -> None:
+    """Every CacheSet built by Cache.__init__ gets a policy object constructed for it: the `replacement_strategy` argument of each
+    CacheSet(..) call is a constructor call evaluated once per set (inside the per-set comprehension / loop), not an object
+    created once in front of it."""
+    m = ctx.model
+    r = ctx.rule(rid, "every cache set owns its own policy object")
     ci = m.method("Cache", "__init__", own=True)
-    comps = [n for n in ast.walk(ci.node) if isinstance(n, ast.ListComp) and any(
-        isinstance(c.func, ast.Subscript) and ast.unparse(c.func.value) == "CacheSet" or ast.unparse(c.func) == "CacheSet" for c in calls_in(n))]
-    ok = False
-    if len(comps) == 1:
-        cs_call = next(c for c in calls_in(comps[0]) if ast.unparse(c.func).startswith("CacheSet"))
-        args = list(cs_call.args) + [k.value for k in cs_call.keywords]
-        ok = any(isinstance(a, ast.Call) and ast.unparse(a.func) == "replacement_strategy" and [ast.unparse(x) for x in a.args] == ["associativity"] for a in args)
-    r.check(ok, "Cache.__init__|policy-per-set", ci.loc(), "the policy object is not constructed inside the per-set comprehension "
-            "(`replacement_strategy(associativity)` per CacheSet): sets would share replacement state")
     cset = m.method("CacheSet", "__init__", own=True)
-    t = " ".join(ast.unparse(cset.node).split())
-    r.check("self.blocks = [CacheBlock[T](2 ** block_bits) for _ in range(associativity)]" in t and "self.replacement_strategy = replacement_strategy" in t,
-            "CacheSet.__init__", cset.loc(), "a set no longer owns `associativity` fresh blocks and the policy it was given")
+    params = cset.params[1:]
+    pos = params.index("replacement_strategy") if "replacement_strategy" in params else None
+    if pos is None:
+        raise AnalysisError("anchor vanished: CacheSet.__init__(.., replacement_strategy, ..)")
+
+    def is_cacheset(c: ast.Call) -> bool:
+        f = c.func.value if isinstance(c.func, ast.Subscript) else c.func
+        return isinstance(f, ast.Name) and f.id == "CacheSet"
+
+    # per-set constructs of Cache.__init__: comprehensions and loops
+    scopes = [n for n in ast.walk(ci.node) if isinstance(n, (ast.ListComp, ast.GeneratorExp, ast.For, ast.While))]
+    n_calls = 0
+    for c in calls_in(ci.node):
+        if not is_cacheset(c):
+            continue
+        n_calls += 1
+        arg = c.args[pos] if len(c.args) > pos else next((k.value for k in c.keywords if k.arg == "replacement_strategy"), None)
+        inside = [sc for sc in scopes if any(x is c for x in ast.walk(sc))]
+        ok = bool(inside) and arg is not None
+        if ok and isinstance(arg, ast.Name):
+            # a local: it must be (re)bound to a fresh object inside the innermost per-set loop
+            loop = min(inside, key=lambda sc: sum(1 for _ in ast.walk(sc)))
+            binds = [x for x in ast.walk(loop) if isinstance(x, ast.Assign) and any(isinstance(t, ast.Name) and t.id == arg.id for t in x.targets)]
+            ok = isinstance(loop, (ast.For, ast.While)) and len(binds) == 1 and isinstance(binds[0].value, ast.Call)
+            arg = binds[0].value if ok else arg
+        ok = ok and isinstance(arg, ast.Call) and ast.unparse(arg.func) in ("replacement_strategy", "LRU", "PLRU") \
+            and [ast.unparse(x) for x in arg.args] + [ast.unparse(k.value) for k in arg.keywords] == ["associativity"]
+        r.check(ok, "Cache.__init__|policy-per-set", ci.loc(c), "the policy object handed to CacheSet(..) is not constructed once per set "
+                f"(`replacement_strategy(associativity)` inside the per-set comprehension/loop; found `{ast.unparse(arg) if arg is not None else None}`): "
+                "all sets would share one replacement state, so an access to one set changes the victim in every other set")
+    if n_calls == 0:
+        raise AnalysisError("anchor vanished: CacheSet(..) construction in Cache.__init__")
+    from ..parsershape import normal_flow
+    fl = normal_flow(m, cset)
+    stores = {fl.canon(e.expr) for e in fl.effects if e.kind == "store" and fl.canon_cond(e.cond) == "TRUE"}
+    pa, pb, ps = (f"P{cset.params.index(x)}" for x in ("associativity", "block_bits", "replacement_strategy"))
+    blocks = {f"P0.blocks := ListComp(CacheBlock{t}({sz}) for _c0 in range({pa}))" for t in ("[T]", "") for sz in (f"Pow(2, {pb})", f"LShift(1, {pb})")}
+    r.check(bool(stores & blocks) and f"P0.replacement_strategy := {ps}" in stores,
+            "CacheSet.__init__", cset.loc(), "a set no longer owns `associativity` fresh blocks and the policy it was given "
+            f"(stores: {sorted(x for x in stores if 'blocks' in x or 'replacement' in x)})")
 
 
 def _pow2_test(t: ast.AST) -> bool:
@@ -125,6 +161,27 @@ def _list_ops(f, attr: str) -> list[tuple[str, list[str]]]:
     return out
 
 
+LRU_ACCESS_FORMS = {
+    "back": [
+        "self.lru.remove(index); self.lru.append(index)",
+        "self.lru = [b for b in self.lru if b != index]; self.lru.append(index)",
+        "self.lru = [b for b in self.lru if b != index] + [index]",
+        "self.lru[:] = [b for b in self.lru if b != index]; self.lru.append(index)",
+        "self.lru.pop(self.lru.index(index)); self.lru.append(index)",
+        "del self.lru[self.lru.index(index)]; self.lru.append(index)",
+        "self.lru.append(self.lru.pop(self.lru.index(index)))",
+    ],
+    "front": [
+        "self.lru.remove(index); self.lru.insert(0, index)",
+        "self.lru = [b for b in self.lru if b != index]; self.lru.insert(0, index)",
+        "self.lru = [index] + [b for b in self.lru if b != index]",
+        "self.lru.pop(self.lru.index(index)); self.lru.insert(0, index)",
+        "del self.lru[self.lru.index(index)]; self.lru.insert(0, index)",
+        "self.lru.insert(0, self.lru.pop(self.lru.index(index)))",
+    ],
+}
+
+
 def lru_rule(ctx: Ctx) -> None:
     m = ctx.model
     r = ctx.rule("R10.lru", "LRU: access / victim / ages / initial order agree on the list ends")
@@ -133,18 +190,18 @@ def lru_rule(ctx: Ctx) -> None:
         init, acc, vic, rep = (m.method(c, n, own=True) for n in ("__init__", "access", "get_next_to_replace", "get_repr"))
     except AnalysisError:
         raise
-    sn = acc.params[0]
-    ops = _list_ops(acc, "lru")
-    idx = acc.params[1] if len(acc.params) > 1 else "index"
-    stores = [n for n in walk_no_nested(acc.node) if isinstance(n, (ast.Assign, ast.AugAssign, ast.Delete))]
+    # access(i) moves block i to the young end of the order list; the ways of writing that are enumerated as reference
+    # sources and compared as normal forms (returns + effects in order)
+    from ..flowspec import signature
     young = None
-    if ops == [("remove", [idx]), ("append", [idx])] and not stores:
-        young = "back"
-    elif ops == [("remove", [idx]), ("insert", ["0", idx])] and not stores:
-        young = "front"
+    got_sig = signature(m, acc)
+    for end, srcs in LRU_ACCESS_FORMS.items():
+        for src in srcs:
+            if signature(m, acc, "def access(self, index):\n" + "\n".join("    " + x for x in src.split("; ")) + "\n") == got_sig:
+                young = end
     if young is None:
-        ctx.notes.append("R10.lru: LRU.access is not the remove+reinsert idiom; order agreement not decided")
-        r.inst("LRU|unrecognised", "not decided")
+        r.check(False, "LRU.access", acc.loc(), "LRU.access(i) is not recognised as `move block i (compared by value) to the young end of self.lru`: "
+                f"effects {[e[1] for e in got_sig[1]]}")
         return
     r.inst("LRU.access", {"young_end": young})
     from ..parsershape import normal_flow
